@@ -1,6 +1,7 @@
 """Webhook decorator."""
 
 import logging
+from typing import ClassVar
 
 from aiohttp import hdrs
 import voluptuous as vol
@@ -36,6 +37,9 @@ class WebhookTriggerDecorator(TriggerDecorator, ExpressionDecorator, AutoKwargsD
     local_only: bool
     methods: set[str]
 
+    # Home Assistant allows one handler per webhook id: the started triggers of an id share one registration
+    _started: ClassVar[dict[str, list["WebhookTriggerDecorator"]]] = {}
+
     async def validate(self):
         """Validate the webhook trigger configuration."""
         await super().validate()
@@ -44,7 +48,8 @@ class WebhookTriggerDecorator(TriggerDecorator, ExpressionDecorator, AutoKwargsD
         if len(self.args) == 2:
             self.create_expression(self.args[1])
 
-    async def _handler(self, hass, webhook_id, request):
+    @classmethod
+    async def _handler(cls, hass, webhook_id, request):
         func_args = {
             "trigger_type": "webhook",
             "webhook_id": webhook_id,
@@ -57,6 +62,10 @@ class WebhookTriggerDecorator(TriggerDecorator, ExpressionDecorator, AutoKwargsD
             payload_multidict = await request.post()
             func_args["payload"] = {k: payload_multidict.getone(k) for k in payload_multidict.keys()}
 
+        for dec in list(cls._started.get(webhook_id, ())):
+            await dec._webhook_received(func_args.copy())
+
+    async def _webhook_received(self, func_args):
         if self.has_expression():
             if not await self.check_expression_vars(func_args):
                 return
@@ -66,19 +75,26 @@ class WebhookTriggerDecorator(TriggerDecorator, ExpressionDecorator, AutoKwargsD
     async def start(self):
         """Start the webhook trigger."""
         await super().start()
-        webhook.async_register(
-            self.dm.hass,
-            "pyscript",  # DOMAIN
-            "pyscript",  # NAME
-            self.webhook_id,
-            self._handler,
-            local_only=self.local_only,
-            allowed_methods=self.methods,
-        )
+        if not self._started.get(self.webhook_id):
+            webhook.async_register(
+                self.dm.hass,
+                "pyscript",  # DOMAIN
+                "pyscript",  # NAME
+                self.webhook_id,
+                self._handler,
+                local_only=self.local_only,
+                allowed_methods=self.methods,
+            )
+        self._started.setdefault(self.webhook_id, []).append(self)
 
         _LOGGER.debug("webhook trigger %s listening on id %s", self.dm.name, self.webhook_id)
 
     async def stop(self):
         """Stop the webhook trigger."""
         await super().stop()
-        webhook.async_unregister(self.dm.hass, self.webhook_id)
+        started = self._started.get(self.webhook_id, [])
+        if self in started:
+            started.remove(self)
+            if not started:
+                del self._started[self.webhook_id]
+                webhook.async_unregister(self.dm.hass, self.webhook_id)
